@@ -165,3 +165,73 @@ def replay_schedules(ctx, num, depth=30):
     ctx.cov["tlc_schedules_replayed"] = len(files)
     ctx.cov["tlc_schedules_cut_short_by_score_order"] = len([n for n in summary.get("notes", []) if "behaviour cut" in n])
     return stats
+
+
+def resync_step(ctx, chains, pairs, epochs=4, thorough=False, design=True):
+    """bft.Engine.Resync (the start-up pass that recomputes persisted qualities and advances the finalized checkpoint):
+    Resync.tla exhaustively, two seeded design errors that must be rejected, then the real pass over stale stores with a
+    crash at every write, judged by the driver's oracles and by Trace_Resync.tla."""
+    cfgs = ["MC_Resync_quick.cfg"] + (["MC_Resync_start2.cfg", "MC_Resync_thorough.cfg"] if thorough else [])
+    for cfg in (cfgs if design else []):
+        ctx.tlc_must_hold("bft", "MC_Resync", cfg=cfg, timeout=3000 if thorough else 900, label="Resync design " + cfg)
+    for cfg, want in ((("MC_Resync_noguard.cfg", "NeverFails"), ("MC_Resync_fromgenesis.cfg", "FinMonotone")) if design else ()):
+        r = ctx.tlc("bft", "MC_Resync", cfg=cfg, timeout=600, label="seeded design error " + cfg, count=False)
+        if not r.invariant or want not in r.invariant:
+            raise Infra("seeded design error %s was not rejected by %s (got %s)" % (cfg, want, r.invariant or r.error or "ok"))
+    binp = ctx.build("resync")
+    out = ctx.tmp("resync")
+    seed = ctx.seed * 13 + 5
+    rc, o = ctx.run([binp, "-out", out, "-seed", str(seed), "-chains", str(chains), "-pairs", str(pairs), "-epochs", str(epochs)],
+                    timeout=1800)
+    how = dict(driver="resync", seed=seed, chains=chains, pairs=pairs, epochs=epochs)
+    if rc == 3:
+        raise Infra("resync harness error: " + o[-1500:])
+    if rc != 0:
+        if rc is not None and ("panic:" in o or "goroutine " in o):
+            rp = ctx.save_replay("panic-resync-%d.txt" % seed, o[-20000:])
+            ctx.report("panic:resync", "real code panicked in the resync driver: %s" % o.strip().splitlines()[0:3], rp)
+            return
+        raise Infra("resync driver failed rc=%s: %s" % (rc, o[-2000:]))
+    summary = json.loads(o.strip().splitlines()[-1])
+    seen = set()
+    for v in summary.get("violations") or []:
+        if v["sig"] == "resync-harness":
+            raise Infra("resync driver: " + v["detail"])
+        if v["sig"] in seen:
+            continue
+        seen.add(v["sig"])
+        rp = ctx.save_replay("resync-%s-seed%d.json" % (v["sig"], seed), {"how": how, "violation": v, "summary": summary})
+        ctx.report(v["sig"], "resync: %s (run %d; re-run: harness/cmd/resync %s)" % (v["detail"], v["run"], how), rp)
+    trace = os.path.join(out, "trace.ndjson")
+    accepted, hwm, ln, r = ctx.validate_trace("bft", "Trace_Resync", trace, cfg="Trace_Resync.cfg", timeout=900)
+    events = read_ndjson(trace)
+    if accepted:
+        ctx.cov["states"] += r.distinct
+        ctx.cov["transitions"] += r.generated
+    else:
+        ev = events[hwm] if hwm < len(events) else {}
+        what = "invariant %s violated" % r.invariant if r.invariant else "event not allowed by the specification"
+        sig = "resync-" + ("invariant:" + r.invariant if r.invariant else "rejected:" + str(ev.get("e")) + ":" + str(ev.get("cls", "")))
+        rp = ctx.save_replay("resync-trace-seed%d.json" % seed, {"how": how, "offending_index": hwm, "offending_event": ev,
+                                                                 "tlc_verdict": what, "trace_prefix": events[max(0, hwm - 40):hwm + 1]})
+        ctx.report(sig, "resync: event #%d %s -> %s" % (hwm, json.dumps(ev, sort_keys=True), what), rp)
+    # binding demonstration: one logged value changed, one write dropped -> rejected
+    ws = [i for i, e in enumerate(events) if e["e"] == "W" and e.get("cls") == "q"]
+    if ws and accepted:
+        i = ws[len(ws) // 2]
+        bad = [dict(e) for e in events]
+        bad[i]["v"] = bad[i]["v"] + 1
+        dele = events[:i] + events[i + 1:]
+        for name, evs in (("corrupted-field", bad), ("deleted-event", dele)):
+            path = os.path.join(out, name + ".ndjson")
+            write_ndjson(path, evs)
+            acc2, _, _, _ = ctx.validate_trace("bft", "Trace_Resync", path, cfg="Trace_Resync.cfg", timeout=600)
+            if acc2:
+                raise Infra("binding demonstration failed: %s resync trace was accepted" % name)
+        ctx.cov["resync_binding_demo"] = "corrupted-field and deleted-event variants rejected"
+    ctx.cov["resync_runs"] = summary["runs"]
+    ctx.cov["resync_chains"] = summary["chains"]
+    ctx.cov["resync_events"] = summary["events"]
+    ctx.cov["resync_crashes"] = summary["stats"].get("crashes", 0)
+    ctx.cov["resync_finalized_writes"] = summary["stats"].get("fin_writes", 0)
+    ctx.cov["traces_validated_against_impl"] += summary["runs"] if accepted else 0
